@@ -270,6 +270,13 @@ def run(ctx):
         ctx.sample({k: v for k, v in bev[len(bev) // 2].items()})
     rej = sigs.judge(ctx, blobs, ev)
     ctx.traces += len(ev) - len(rej)
+    bad = {i for i, _ in rej}
+    good = [e for i, e in enumerate(ev) if i not in bad]
+    other_hd = next(e['hashdata'] for e in good if e['k'] == 'foreign' and 'hashdata' in e and e['sptype'] == 100)
+    ctx.selftest(lambda b: sigs.judge(ctx, blobs, b), good,
+                 [('hashed octets are those of another signature', lambda e: dict(e, hashdata=other_hd) if e['k'] == 'foreign' and e.get('hashdata') not in (None, other_hd) and e['sptype'] == 27 else None),
+                  ('a valid foreign signature reported falsy', lambda e: dict(e, result='falsy') if e['k'] == 'foreign' and e['result'] == 'truthy' and e['accepted'] and e['clause'] == 'C05.foreign-verifies' else None),
+                  ('a flipped hashed bit reported truthy', lambda e: dict(e, result='truthy') if e['k'] == 'attempt' and e['result'] == 'falsy' and e['asig'] else None)], 'C05')
     ctx.extra['foreign_signatures'] = len(fev)
     ctx.extra['foreign_accepted'] = sum(1 for e in fev if e['accepted'])
     ctx.extra['foreign_rejected_by_pgpy'] = sum(1 for e in fev if not e['accepted'])
